@@ -1,2 +1,4 @@
 from props.client_props import gen_c03
-PROP = {"id": "C03", "stages": [{"name": "client", "target": "h_client", "gen": gen_c03, "shard": 12}], "trivial_tags": [], "rule": "", "assumptions": []}
+PROP = {"id": "C03", "stages": [{"name": "client", "target": "h_client", "gen": gen_c03, "shard": 12}], "trivial_tags": [],
+        "rule": 'binary downloads and listings: payload sizes around the 8192-byte block x passive/active x EPSV-EPRT/PASV-PORT x IPv4/IPv6, random server write segmentation, plus random short histories; sink bytes (length + FNV-64, content when short), flush count and position compared with the payload the peer wrote. distinct = distinct scenario lines.',
+        "assumptions": ["in-memory control transport (a socket_base subclass) stands in for the TCP control socket; data connections are real loopback TCP", "oracle values (read sizes, kernel-chosen ports, connect results) are taken from the implementation run"]}
